@@ -73,7 +73,7 @@ h("C17", "c17", "c17_dedup_exact_n3", "quick", 600,
 h("C17", "c17", "c17_dedup_exact_sorted_n3", "quick", 900,
   "dedup_vertices_exact_sorted (batch path): n=3, D=2, coordinates in {-1,-0.0,+0.0,1}: same laws",
   ["core::delaunay_triangulation::dedup_vertices_exact_sorted", "core::util::deduplication::coords_equal_exact"])
-for eps, tier in [("125", "quick"), ("150", "thorough")]:
+for eps, tier in [("125", "thorough"), ("150", "thorough")]:
     h("C17", "c17", f"c17_dedup_eps_n3_e{eps}", tier, 1200,
       f"dedup_vertices_epsilon: n=3, D=2, coordinates in {{-1,0,1}}, eps={int(eps) / 100}: survivors subset of input, no two "
       "survivors within eps, every dropped vertex within eps of a survivor", ["core::util::deduplication::dedup_vertices_epsilon"])
@@ -130,7 +130,7 @@ for nm, form, edge in [("fast_g3_edge_a", "fast", "(0,0)-(1,0)"), ("fast_g3_edge
     h("C12", "c12", f"c12_insphere2d_{nm}", "thorough", 3000,
       f"D=2 in-sphere ({form}): simplex edge fixed at {edge}, third vertex and query range over all 7^4 = 2401 integer points of "
       "[-3,3]^2 x [-3,3]^2: exact sign; degenerate => Err or BOUNDARY", LU4 + LU3)
-for form, tier in [("fast", "thorough"), ("lifted", "thorough"), ("robust1", "quick"), ("robust3", "thorough")]:
+for form, tier in [("fast", "thorough"), ("lifted", "thorough"), ("robust1", "thorough"), ("robust3", "thorough")]:
     h("C12", "c12", f"c12_insphere2d_{form}_dyadic_edge", tier, 3000,
       f"D=2 in-sphere ({form}) on small-scale dyadic input 2^-k*Z^2, k symbolic in 0..=10: simplex edge (0,0)-(1,0), third "
       "vertex and query over [-2,2]^2 (all scaled): exact sign (|det| >= 9e-13 is > 100x the documented tolerance)", LU4 + LU3)
@@ -228,7 +228,10 @@ h("C18", "c18", "c18_volume_3d_g2", "thorough", 10000, f"simplex_volume D=3, all
 h(["C18", "C19"], "c18", "c18_volume_2d_wrong_arity", "quick", 300,
   "simplex_volume D=2 with any slice length 0..=5: Ok iff exactly 3 points, never a panic", VOL)
 CC = ["geometry::util::circumsphere::circumcenter (la-stack LU solve, zero-tolerance fallback)"]
-h("C18", "c18", "c18_circumcenter_degenerate_2d_g2", "quick", 1800,
+h("C18", "c18", "c18_circumcenter_degenerate_2d_origin_g3", "quick", 1200,
+  "circumcenter D=2, first point at the origin, all EXACTLY collinear pairs of further integer points in [0,3]^2: must be Err "
+  "-- KNOWN FINDING F4: Ok(garbage) where the LU elimination leaves a rounding residue as pivot", CC)
+h("C18", "c18", "c18_circumcenter_degenerate_2d_g2", "thorough", 3000,
   "circumcenter D=2, all EXACTLY collinear triples of integer points in [-2,2]^2: must be Err -- KNOWN FINDING F4: Ok(garbage) "
   "where the LU elimination leaves a rounding residue as pivot", CC)
 h("C18", "c18", "c18_circumcenter_value_2d_g2", "thorough", 6000,
@@ -359,18 +362,20 @@ PROP_ASSUMPTIONS["C09"] = [
 # ---------------------------------------------------------------------------
 # C14
 # ---------------------------------------------------------------------------
+GEN = {"s01": "positions 0 and 1 swapped", "s12": "positions 1 and 2 swapped"}
 for nm, strat, tier, to in [("lex", "Lexicographic", "quick", 900), ("morton", "Morton", "quick", 2400), ("hilbert", "Hilbert", "thorough", 6000)]:
-    h("C14", "c14", f"c14_order_independent_{nm}_n3", tier, to,
-      f"{strat} ordering, n=3 vertices, D=2, integer coordinates in [-2,2], EVERY permutation of the input list: the ordered "
-      "coordinate sequence is identical; with pairwise distinct coordinates the vertex (UUID) sequence is identical",
-      ORD + [f"core::delaunay_triangulation::order_vertices_{nm if nm != 'lex' else 'lexicographic'}"])
-for nm, strat, tier, to in [("lex", "Lexicographic", "quick", 900), ("morton", "Morton", "quick", 2400), ("hilbert", "Hilbert", "thorough", 6000)]:
-    h("C14", "c14", f"c14_order_independent_{nm}_cluster_n3", tier, to,
-      f"{strat} ordering on a CLUSTER: frame vertex (-2,2) plus two vertices with coordinates in {{0,1,2,3}}*2^-40 (same "
-      "Hilbert/Morton cell), D=2, every permutation of the input list: identical ordered sequence (coordinates; vertices when "
-      "the two cluster points differ)", ORD)
-h("C14", "c14", "c14_order_deterministic_n3", "quick", 2400,
-  "Input/Lexicographic/Morton ordering applied twice to the same n=3 input (D=2, coordinates in [-2,2]): identical sequences", ORD)
+    for g, gtxt in GEN.items():
+        h("C14", "c14", f"c14_order_independent_{nm}_n3_{g}", tier, to,
+          f"{strat} ordering, n=3 vertices, D=2, ALL integer coordinates in [-2,2], input list with {gtxt} (the two "
+          "transpositions generate S3, so invariance under both = invariance under every permutation): identical ordered "
+          "coordinate sequence; with pairwise distinct coordinates identical vertex (UUID) sequence",
+          ORD + [f"core::delaunay_triangulation::order_vertices_{nm if nm != 'lex' else 'lexicographic'}"])
+        h("C14", "c14", f"c14_order_independent_{nm}_cluster_n3_{g}", tier if not (nm == "morton" and g == "s01") else "thorough", to,
+          f"{strat} ordering on a CLUSTER: frame vertex (-2,2) plus two vertices with coordinates in {{0,1,2,3}}*2^-40 (same "
+          f"Hilbert/Morton cell), D=2, input list with {gtxt}: identical ordered sequence (coordinates; vertices when the two "
+          "cluster points differ)", ORD)
+h("C14", "c14", "c14_order_deterministic_n3", "quick", 900,
+  "Input/Lexicographic ordering applied twice to the same n=3 input (D=2, coordinates in [-2,2]): identical sequences", ORD)
 PROP_ASSUMPTIONS["C14"] = [
     "kernel level only: equality of the BUILT triangulations, uniqueness of the Delaunay triangulation, hash-map iteration "
     "order, the shuffle seed's permutation invariance (two 64-bit multiplier chains: solver timeout) and cross-process runs "
